@@ -391,4 +391,179 @@ example :
 /-- `a` then `A`: one entry, the later spelling -/
 example : (Dict.ofList [⟨['a'], ['a'], 0⟩, ⟨['A'], ['a'], 1⟩]).words = [['A']] := by decide
 
+/-! ## w22: joint witnesses of the hypotheses (theorems applied to concrete values) -/
+
+/-- non-vacuity of `u8_rows_exact`: two 200-character strings (inside the bound), both profiles,
+and two 254-character strings (at the bound) -/
+example : editDistance .checked (List.replicate 200 'a') (List.replicate 200 'b')
+      = .ok (lev (List.replicate 200 'a') (List.replicate 200 'b')) ∧
+    editDistance .wrapping (List.replicate 254 'a') (List.replicate 254 'b')
+      = .ok (lev (List.replicate 254 'a') (List.replicate 254 'b')) :=
+  ⟨u8_rows_exact .checked _ _ (by rw [List.length_replicate]; omega) (by rw [List.length_replicate]; omega),
+   u8_rows_exact .wrapping _ _ (by rw [List.length_replicate]; omega) (by rw [List.length_replicate]; omega)⟩
+
+/-- … and outside: two 256-character strings have no value in the dev profile, two 255-character
+strings neither (`u8_checked_ok_iff`, left to right) -/
+example : (¬ ∃ n, editDistance .checked (List.replicate 256 'a') (List.replicate 256 'b') = .ok n) ∧
+    (¬ ∃ n, editDistance .checked (List.replicate 255 'a') (List.replicate 255 'b') = .ok n) := by
+  constructor <;> intro h <;>
+    rcases (u8_checked_ok_iff _ _).mp h with ⟨h1, _⟩ | ⟨h1, _⟩ | ⟨h1, _⟩ <;>
+    first
+    | (rw [List.length_replicate] at h1; omega)
+    | (have := congrArg List.length h1; rw [List.length_replicate] at this; cases this)
+
+/-- non-vacuity of `u8_checked_value` (hypothesis `… = .ok n` on the repository's test vector) -/
+example : (3 : Nat) = lev "kitten".toList "sitting".toList :=
+  u8_checked_value "kitten".toList "sitting".toList 3 (by decide)
+
+/-- non-vacuity of `fuzzy_sound`: the theorem applied to the seven-word search above -/
+example : ∃ res, fuzzyMatch .checked 1 3 "Ab".toList "ab".toList
+      [(0, "ab".toList), (1, "b".toList), (2, "abc".toList), (3, "".toList), (4, "ba".toList),
+       (5, "Ab".toList), (6, "abcd".toList)] = .ok res ∧ res.length ≤ 3 :=
+  let ⟨res, h, _, _, hl, _⟩ := fuzzy_sound .checked 1 3 "Ab".toList "ab".toList
+    [(0, "ab".toList), (1, "b".toList), (2, "abc".toList), (3, "".toList), (4, "ba".toList),
+     (5, "Ab".toList), (6, "abcd".toList)] (.inr (by decide))
+  ⟨res, h, hl⟩
+
+/-- non-vacuity of `fuzzy_complete`: both hypotheses together, with a cap (2) SMALLER than the
+dictionary (3 words): `abcd` is outside the bound, so two matches fit -/
+example : ∃ res, fuzzyMatch .checked 1 2 ['A', 'b'] ['a', 'b']
+      [(0, ['a', 'b', 'c', 'd']), (1, ['b']), (2, ['A', 'b'])] = .ok res ∧
+      (1, 1) ∈ res ∧ (2, 0) ∈ res := by
+  have l1 : lev ['A', 'b'] ['a', 'b', 'c', 'd'] = 3 := lev_of_editDistance (by decide)
+  have l2 : lev ['a', 'b'] ['a', 'b', 'c', 'd'] = 2 := lev_of_editDistance (by decide)
+  have l3 : lev ['A', 'b'] ['b'] = 1 := lev_of_editDistance (by decide)
+  have l4 : lev ['a', 'b'] ['b'] = 1 := lev_of_editDistance (by decide)
+  have l5 : lev ['A', 'b'] ['A', 'b'] = 0 := lev_of_editDistance (by decide)
+  have l6 : lev ['a', 'b'] ['A', 'b'] = 1 := lev_of_editDistance (by decide)
+  obtain ⟨res, h, hc⟩ := fuzzy_complete .checked 1 2 ['A', 'b'] ['a', 'b']
+    [(0, ['a', 'b', 'c', 'd']), (1, ['b']), (2, ['A', 'b'])] (.inr (by decide))
+    (by simp [List.filter, l1, l2, l3, l4, l5, l6])
+  refine ⟨res, h, ?_, ?_⟩
+  · have := hc 1 ['b'] (by simp) (by decide) (.inl (by rw [l3]; decide))
+    simpa [l3, l4] using this
+  · have := hc 2 ['A', 'b'] (by simp) (by decide) (.inl (by rw [l5]; decide))
+    simpa [l5, l6] using this
+
+/-- non-vacuity of `fuzzy_complete_lower`: lower-case query, cap 2 < 3 words -/
+example : ∃ res, fuzzyMatch .checked 1 2 ['a', 'b'] ['a', 'b']
+      [(0, ['a', 'b', 'c', 'd']), (1, ['b']), (2, ['A', 'b'])] = .ok res ∧
+      (1, 1) ∈ res ∧ (2, 1) ∈ res := by
+  have l2 : lev ['a', 'b'] ['a', 'b', 'c', 'd'] = 2 := lev_of_editDistance (by decide)
+  have l4 : lev ['a', 'b'] ['b'] = 1 := lev_of_editDistance (by decide)
+  have l6 : lev ['a', 'b'] ['A', 'b'] = 1 := lev_of_editDistance (by decide)
+  obtain ⟨res, h, hc⟩ := fuzzy_complete_lower .checked 1 2 ['a', 'b']
+    [(0, ['a', 'b', 'c', 'd']), (1, ['b']), (2, ['A', 'b'])] (.inr (by decide))
+    (by simp [List.filter, l2, l4, l6])
+  refine ⟨res, h, ?_, ?_⟩
+  · simpa [l4] using hc 1 ['b'] (by simp) (by decide) (by rw [l4]; decide)
+  · simpa [l6] using hc 2 ['A', 'b'] (by simp) (by decide) (by rw [l6]; decide)
+
+/-- non-vacuity of `zipMerge_complete`: a strictly increasing stream -/
+example : zipMerge 2 [(0, 1), (2, 0), (5, 1)] [(0, 1), (2, 0), (5, 1)] = [(2, 0), (0, 1)] := by
+  rw [zipMerge_complete 2 _ (by decide)]; decide
+
+/-- non-vacuity of `fst_fuzzy_complete_lower`: both hypotheses, cap 3 < 4 words (`ccc` is outside
+the bound) -/
+example : (0, 1) ∈ fstFuzzy 1 3 ['b', 'a'] ['b', 'a']
+      [(0, ['B', 'a']), (1, ['a']), (2, ['b', 'a']), (3, ['c', 'c', 'c'])] := by
+  have l0 : lev ['b', 'a'] ['B', 'a'] = 1 := lev_of_editDistance (by decide)
+  have l1 : lev ['b', 'a'] ['a'] = 1 := lev_of_editDistance (by decide)
+  have l2 : lev ['b', 'a'] ['b', 'a'] = 0 := lev_of_editDistance (by decide)
+  have l3 : lev ['b', 'a'] ['c', 'c', 'c'] = 3 := lev_of_editDistance (by decide)
+  have := fst_fuzzy_complete_lower 1 3 ['b', 'a']
+    [(0, ['B', 'a']), (1, ['a']), (2, ['b', 'a']), (3, ['c', 'c', 'c'])] (by decide)
+    (by simp [List.filter, l0, l1, l2, l3]) 0 ['B', 'a'] (by simp) (by rw [l0]; decide)
+  simpa [l0] using this
+
+/-- non-vacuity of the last clause of `merged_is_union` (first child that knows the word): `b` is
+unknown to the first child and answered by the second -/
+example :
+    let c1 : Dict := [⟨"Hello".toList, "hello".toList, 1⟩]
+    let c2 : Dict := [⟨"hello".toList, "hello".toList, 2⟩, ⟨"b".toList, "b".toList, 3⟩]
+    Merged.canonical [c1, c2] "b".toList = c2.canonical "b".toList ∧
+      Merged.metadata [c1, c2] "b".toList = c2.metadata "b".toList := by
+  intro c1 c2
+  exact (merged_is_union [c1, c2] [] "b".toList).2.2.2.2.2 [c1] c2 [] rfl (by decide) (by decide)
+
+/-- non-vacuity of `merged_fuzzy_sound`: applied to the two-child search below -/
+example : ∃ res, Merged.fuzzyMatch .checked 1 2 "ab".toList "ab".toList
+      [[⟨"ab".toList, "ab".toList, 0⟩], [⟨"ab".toList, "ab".toList, 1⟩, ⟨"abc".toList, "abc".toList, 2⟩]]
+      = .ok res ∧ res.length ≤ 2 :=
+  let ⟨res, h, _, _, hl⟩ := merged_fuzzy_sound .checked 1 2 "ab".toList "ab".toList
+    [[⟨"ab".toList, "ab".toList, 0⟩], [⟨"ab".toList, "ab".toList, 1⟩, ⟨"abc".toList, "abc".toList, 2⟩]]
+    (.inr (by decide))
+  ⟨res, h, hl⟩
+
+/-! ## w22: back-ends agree on one dictionary; completeness under any cap -/
+
+/-- **Back-ends agree (merged over one dictionary).** A merged dictionary with a single child answers
+membership, exact-capitalisation, canonical-spelling and metadata queries exactly as that child,
+for every query. (`FstDictionary` answers these four queries by delegating to the
+`MutableDictionary` it is built around — `fst_dictionary.rs:115–210` — so there is nothing to model
+for the FST back-end beyond `fstFuzzy`; the agreement FST = mutable is a correspondence-run check.) -/
+theorem merged_singleton_agrees (d : Dict) (nq kq : List Char) :
+    Merged.containsWord [d] kq = d.containsWord kq ∧
+    Merged.containsExact [d] nq kq = d.containsExact nq kq ∧
+    Merged.canonical [d] kq = d.canonical kq ∧
+    Merged.metadata [d] kq = d.metadata kq := by
+  have h := merged_is_union [d] nq kq
+  refine ⟨by simp [Merged.containsWord], by simp [Merged.containsExact], ?_, ?_⟩
+  · rw [h.2.2.1]; simp
+  · rw [h.2.2.2.1]; simp
+
+/-- … whereas a merged dictionary and ONE mutable dictionary holding the same words need not agree on
+the canonical spelling when two children list case variants: merged = first child wins,
+`extend_words` = last insert wins (membership agrees). -/
+example :
+    Merged.canonical [[⟨['A'], ['a'], 0⟩], [⟨['a'], ['a'], 1⟩]] ['a'] = some ['A'] ∧
+    Dict.canonical (Dict.ofList [⟨['A'], ['a'], 0⟩, ⟨['a'], ['a'], 1⟩]) ['a'] = some ['a'] ∧
+    Merged.containsWord [[⟨['A'], ['a'], 0⟩], [⟨['a'], ['a'], 1⟩]] ['a']
+      = Dict.containsWord (Dict.ofList [⟨['A'], ['a'], 0⟩, ⟨['a'], ['a'], 1⟩]) ['a'] := by decide
+
+/-- **Completeness under any cap.** Without the hypothesis `hcap` of `fuzzy_complete`: a non-empty
+dictionary word within the bound is either returned, or the result is full (`cap` entries) and every
+returned entry is at least as close as the missed word — the cap only ever cuts off the far end. -/
+theorem fuzzy_complete_capped {β : Type} (m : Arith) (bound cap : Nat) (q ql : List Char)
+    (ws : List (β × List Char))
+    (hq : m = .nat ∨ (q.length + bound ≤ 254 ∧ ql.length ≤ 254)) :
+    ∃ res, fuzzyMatch m bound cap q ql ws = .ok res ∧
+      ∀ x w, (x, w) ∈ ws → w ≠ [] →
+        (lev q w ≤ bound ∨ (ql.length = q.length ∧ lev ql w ≤ bound)) →
+        (x, min (lev q w) (lev ql w)) ∈ res ∨
+          (res.length = cap ∧ ∀ r ∈ res, r.2 ≤ min (lev q w) (lev ql w)) := by
+  have hrun : fuzzyMatch m bound cap q ql ws
+      = .ok ((sortByDist (ws.filterMap (fuzzyPick bound q ql))).take cap) := by
+    simp only [fuzzyMatch, fuzzyAll, fuzzyScan_eq m bound q ql ws hq]
+  refine ⟨_, hrun, ?_⟩
+  intro x w hxw hw hd
+  generalize hl : sortByDist (ws.filterMap (fuzzyPick bound q ql)) = l
+  have hmem : (x, min (lev q w) (lev ql w)) ∈ l := by
+    rw [← hl]
+    apply (sortByDist_perm _).mem_iff.mpr
+    apply List.mem_filterMap.mpr
+    refine ⟨(x, w), hxw, ?_⟩
+    have hwin : inWindow q.length bound w.length = true := by
+      rcases hd with h | ⟨hl, h⟩
+      · exact inWindow_of_lev_le q w bound hw h
+      · rw [← hl]; exact inWindow_of_lev_le ql w bound hw h
+    have hmin : min (lev q w) (lev ql w) ≤ bound := by omega
+    simp [fuzzyPick, hwin, hmin]
+  have hsorted : l.Pairwise (fun a b => a.2 ≤ b.2) := by rw [← hl]; exact sortByDist_sorted _
+  rw [← List.take_append_drop cap l] at hmem hsorted
+  rcases List.mem_append.mp hmem with h | h
+  · exact .inl h
+  · right
+    have hlen : cap < l.length := by
+      have := List.length_pos_of_mem h
+      simp only [List.length_drop] at this
+      omega
+    refine ⟨by simp only [List.length_take]; omega, fun r hr => ?_⟩
+    exact (List.pairwise_append.mp hsorted).2.2 r hr _ h
+
+/-- non-vacuity of `fuzzy_complete_capped`, second alternative: cap 1, two words within the bound —
+`b` (distance 1) is missed, the result is full and its only entry is closer (distance 0) -/
+example : fuzzyMatch .checked 1 1 ['a', 'b'] ['a', 'b'] [(0, ['b']), (1, ['a', 'b'])]
+    = .ok [(1, 0)] := by decide
+
 end Harper.C15
